@@ -448,7 +448,13 @@ func partA() {
 		depth = 5
 		qcaps = []int{1, 2}
 	}
-	var minimalEmptyLost atomic.Value
+	type lost struct {
+		d, idx, qc int
+		detail     map[string]any
+	}
+	var lostMu sync.Mutex
+	var best *lost // smallest (depth, index, queue cap): the same example on every run
+	nLost := int64(0)
 	total := 0
 	for d := 1; d <= depth; d++ {
 		n := 1
@@ -465,6 +471,9 @@ func partA() {
 				x /= len(alpha)
 			}
 			for _, qc := range qcaps {
+				if qc > 1 && d == 5 {
+					continue // send-queue capacity 2 up to depth 4; depth 5 with the default capacity 1
+				}
 				wire, acc, stuck, canSend := runSenderCore(ops, qc)
 				r.Eval()
 				key := fmt.Sprintf("A/q%d %v", qc, ops)
@@ -490,10 +499,12 @@ func partA() {
 						r.Outcome("A:nothing accepted")
 					}
 				case "empty-lost":
-					if cur, _ := minimalEmptyLost.Load().(string); cur == "" || len(ops) < len(strings.Fields(cur)) {
-						minimalEmptyLost.Store(fmt.Sprint(ops))
+					lostMu.Lock()
+					nLost++
+					if best == nil || d < best.d || (d == best.d && (idx < best.idx || (idx == best.idx && qc < best.qc))) {
+						best = &lost{d, idx, qc, map[string]any{"minimal_ops": fmt.Sprint(ops), "queue_cap": qc, "accepted": descAccepted(acc), "wire_packets": fmt.Sprint(ps), "CanSend_after_drain": fmt.Sprint(canSend)}}
 					}
-					r.Violation(emptyLostKey, map[string]any{"example_ops": fmt.Sprint(ops), "queue_cap": qc, "accepted": descAccepted(acc), "wire_packets": fmt.Sprint(ps), "CanSend_after_drain": fmt.Sprint(canSend)})
+					lostMu.Unlock()
 					r.Outcome("A:empty message lost")
 				default:
 					r.Violation(key+" :"+verdict, map[string]any{"ops": fmt.Sprint(ops), "accepted": descAccepted(acc), "wire_packets": fmt.Sprint(ps)})
@@ -510,8 +521,46 @@ func partA() {
 			}
 		})
 	}
-	ex, _ := minimalEmptyLost.Load().(string)
-	r.Sample(map[string]any{"part": "A", "op_sequences": total, "alphabet": fmt.Sprint(alpha), "depth": depth, "queue_caps": qcaps, "a_shortest_empty_lost_sequence_seen": ex})
+	ex := ""
+	if best != nil {
+		best.detail["sequences_affected"] = nLost
+		best.detail["where"] = "tm2/pkg/p2p/conn/connection.go Channel.isSendPending: `if len(ch.sending) == 0` cannot tell 'nothing dequeued' from 'dequeued an empty message'"
+		lost, tries := liveEmptyRepro()
+		best.detail["public_api_repro_GOMAXPROCS1"] = fmt.Sprintf("Send(0x01, empty)=true; Send(0x02, empty)=true; FlushStop: receiver got 1 of 2 messages in %d of %d runs (observation, free-running)", lost, tries)
+		r.Violation(emptyLostKey, best.detail)
+		ex = fmt.Sprint(best.detail["minimal_ops"])
+	}
+	r.Sample(map[string]any{"part": "A", "op_sequences": total, "alphabet": fmt.Sprint(alpha), "depth": depth, "queue_caps": qcaps, "minimal_empty_lost_sequence": ex})
+}
+
+// liveEmptyRepro shows the known defect through the public API (observation only, free-running): on one P the
+// two Sends are queued before sendRoutine runs, so both empty messages are pending in the same round.
+func liveEmptyRepro() (lost, tries int) {
+	old := runtime.GOMAXPROCS(1)
+	defer runtime.GOMAXPROCS(old)
+	for tries = 0; tries < 20; tries++ {
+		a, b, _, _ := dpipe.New()
+		var n atomic.Int64
+		errCh := make(chan struct{}, 8)
+		rx := conn.NewMConnectionWithConfig(b, descs(1024, 1), func(byte, []byte) { n.Add(1) }, func(error) { errCh <- struct{}{} }, cfg)
+		tx := conn.NewMConnectionWithConfig(a, descs(1024, 1), func(byte, []byte) {}, func(error) {}, cfg)
+		rx.Start()
+		tx.Start()
+		ok1 := tx.Send(0x01, []byte{})
+		ok2 := tx.Send(0x02, []byte{})
+		tx.FlushStop()
+		t := time.NewTimer(runDeadline)
+		select {
+		case <-errCh:
+		case <-t.C:
+		}
+		t.Stop()
+		rx.Stop()
+		if ok1 && ok2 && n.Load() < 2 {
+			lost++
+		}
+	}
+	return
 }
 
 // ---------------------------------------------------------------------------------------------------------
@@ -829,16 +878,17 @@ func partC() {
 
 func main() {
 	r = vk.New("exploration")
-	r.SetBudget(100*time.Second, 12*time.Minute)
+	r.SetBudget(100*time.Second, 15*time.Minute)
 	t0 := time.Now()
-	partA()
-	fmt.Printf("part A done %.1fs evals=%d\n", time.Since(t0).Seconds(), r.Evals())
-	partB()
-	fmt.Printf("part B done %.1fs evals=%d\n", time.Since(t0).Seconds(), r.Evals())
+	// smallest parts first: if the budget cap hits, it cuts the tail of the largest enumeration only
 	partD()
 	fmt.Printf("part D done %.1fs evals=%d\n", time.Since(t0).Seconds(), r.Evals())
 	partC()
 	fmt.Printf("part C done %.1fs evals=%d\n", time.Since(t0).Seconds(), r.Evals())
+	partB()
+	fmt.Printf("part B done %.1fs evals=%d\n", time.Since(t0).Seconds(), r.Evals())
+	partA()
+	fmt.Printf("part A done %.1fs evals=%d\n", time.Since(t0).Seconds(), r.Evals())
 	r.Assumptions = []string{
 		"schedules are NOT enumerated: MConnection's goroutines use raw channels and timers. Decided exhaustively: the input quantifier (message sizes around packet boundaries, channel mix, packet interleavings, transport chunking, malformed items). Part A abstracts the sender's schedule into explicit 'one sendPacketMsg step' operations on the real sender code, driven synchronously through an overlay hook",
 		"free-running runs (receiver goroutines everywhere, both sides in part C) end on a logical condition (onError after EOF / FlushStop); the 30 s internal deadline only marks a run inconclusive (count in coverage.inconclusive_runs) and sets exhaustive:false",
